@@ -76,8 +76,8 @@ LEVEL.update({
                 text="market_op_local, market_fanout, market_queries_pointwise, market_projection: for every operation sequence each asset's book equals a stand-alone book run on the projected operations (proved, unbounded). Per run: Market<A,L> and MarketEnv<A,L> (A=1..4, per-asset ticks) vs real stand-alone OrderBooks and all-asset query cross-checks.",
                 note=ENV_NOTE),
     "C15": dict(engine="book", design_ref="DESIGN.md 6/C15",
-                technique="Lean 4 theorems (shuffle is a permutation, natural in the items, function of the generator state; all n! draw vectors give all n! orders once; each bounded draw exactly uniform over the 2^32 raw values) + exact per-seed permutation prediction against the real shuffle",
-                text="shuffle_perm, shuffle_natural (the position permutation does not depend on what the instructions are), shuffle_by_positions, step_deterministic for all lists and generator states. shuffle_is_draws + shuffle_outcomes_are_all_permutations_once: the real shuffle is the explicit-draw loop on bounded draws, and over all n! valid draw vectors that loop yields every permutation of a duplicate-free batch exactly once (so uniform independent draws give probability 1/n! per order). Per run the model's predicted permutation equals the real one for every seed and batch size and the generator must have advanced by exactly one shuffle. bounded_draw_exactly_uniform: rand's widening-multiply rejection (gen_range / gen_index) accepts exactly 2^lz of the 2^32 u32 values for every result r < range - no modulo bias - and bounded_draw_accepts_at_least_half. PARTIAL: that the generator's raw 32-bit outputs are uniform and independent (PRNG quality) is trusted. Props/C15 and Lemmas/Lemire import a few Mathlib modules.",
+                technique="Lean 4 theorems (shuffle is a permutation, natural in the items, function of the generator state; all n! draw vectors give all n! orders once, hence every instruction at every position in (n-1)! of them and each relative order in n!/2; each bounded draw exactly uniform over the 2^32 raw values) + exact per-seed permutation prediction against the real shuffle",
+                text="shuffle_perm, shuffle_natural (the position permutation does not depend on what the instructions are), shuffle_by_positions, step_deterministic for all lists and generator states. shuffle_is_draws + shuffle_outcomes_are_all_permutations_once: the real shuffle is the explicit-draw loop on bounded draws, and over all n! valid draw vectors that loop yields every permutation of a duplicate-free batch exactly once (so uniform independent draws give probability 1/n! per order); every_instruction_equally_likely_at_every_position ((n-1)! of the n! draw vectors put a given instruction at a given position) and every_relative_order_equally_likely (x before y in exactly half), by the relabelling symmetry of permutations. Per run the model's predicted permutation equals the real one for every seed and batch size and the generator must have advanced by exactly one shuffle. bounded_draw_exactly_uniform: rand's widening-multiply rejection (gen_range / gen_index) accepts exactly 2^lz of the 2^32 u32 values for every result r < range - no modulo bias - and bounded_draw_accepts_at_least_half. PARTIAL: that the generator's raw 32-bit outputs are uniform and independent (PRNG quality) is trusted. Props/C15 and Lemmas/Lemire import a few Mathlib modules.",
                 note=ENV_NOTE),
 })
 
@@ -95,16 +95,16 @@ LEVEL.update({
                 text="runner_branches_equal (by decide on the translated source), simLoop_add (a run is a fold: n+m steps = n then m from the state left), run_deterministic. Per run the Lean model (generator, agents, environment, book) predicts complete real simulations of RandomAgents compositions bit-for-bit; all agent types are run twice, with/without progress bar, derived vs hand-written and in a separate OS process and must agree. PARTIAL: runtime nondeterminism cannot be exhibited by a model.",
                 note=SIM_NOTE),
     "C16": dict(engine="sim", design_ref="DESIGN.md 6/C16",
-                technique="Lean 4 theorems (RandomAgents instructions valid for all generator states, gen_range bounds, probability 0/>=1 corners; quoted limit prices of noise/momentum agents valid for every sample, exact rational arithmetic) + instruction-level audit of the real agents on a moving market incl. books at the bottom of the price range",
-                text="random_update_valid (every instruction of a random agent is a no-op, a cancel of its own Active order or one on-grid in-range order), genRange_lt, act_p0_never, act_p1_always, sell_price_repair for all inputs; buy_price_valid / sell_price_valid / quoted_prices_accepted: in exact arithmetic the limit prices of place_buy/sell_limit_order are on the tick grid and on the right side of the observed mid for EVERY sample of the price distribution (any finite value, or +inf) and every tick, so the placement cannot be rejected; per run every instruction emitted by the real random/noise/momentum agents (single/multi-asset, tick 1..10, sigma up to 10, 1..200 steps) is audited and aborts are caught. PARTIAL on floats (sampling and rounding are audited, not proved).",
+                technique="Lean 4 theorems (RandomAgents instructions valid for all generator states; whole-update models of the noise and momentum agents over a binary64 model: only valid submissions, never abort, for every sampler and every tanh; quoted limit prices valid for every sample in exact AND in correctly rounded f64 arithmetic) + exact prediction of real noise/momentum agent updates by the Lean model (generator state, every order, post-step observation) + instruction-level audit of the real agents",
+                text="random_update_valid (every instruction of a random agent is a no-op, a cancel of its own Active order or one on-grid in-range order), genRange_lt, act_p0_never, act_p1_always, sell_price_repair for all inputs; buy_price_valid / sell_price_valid / quoted_prices_accepted: in exact arithmetic the limit prices of place_buy/sell_limit_order are on the tick grid and on the right side of the observed mid for EVERY sample of the price distribution (any finite value, or +inf) and every tick, so the placement cannot be rejected; f64 (Model/F64: rnd = round-to-nearest-even over exact rationals, compared with the hardware on every run): f64_rounding_monotone, f64_half_integers_exact, f64_rounding_error (2^-53), buy_price_valid_f64 / sell_price_valid_f64 / sell_price_on_grid_f64: the prices the Rust code computes in binary64 are on the grid and on the right side of the mid for every sample (the rounded quotient mid/tick never crosses an integer). Whole updates (Model/FloatAgents, LogNormal::sample and tanh as arbitrary functions): noise_update_valid / momentum_update_valid (Reach: cancels of tracked Active orders, own traders, configured volume, grid prices on the right side of the observed mid; momentum buys only if M>0, sells only if M<0), noise/momentum_update_never_aborts, float_draws_in_unit_interval, probability_0_never_acts, probability_1_always_acts. Per run: the Lean model predicts real NoiseAgent/MomentumAgent (single and multi-asset) updates exactly (generator state after, every order, and through the next step every queued instruction), the C16 clauses are evaluated on the implementation's observations around every update, every instruction of the real random/noise/momentum agents is audited and aborts are caught. Trusted: LogNormal::sample / libm tanh values (recorded as tables for the tie; parameters of the theorems).",
                 note=SIM_NOTE),
     "C17": dict(engine="sim", design_ref="DESIGN.md 6/C17",
-                technique="Lean 4 theorems over exact rationals (mirroring a path negates every momentum signal; decision at -M is the side-mirror; probability even in M for any odd tanh) + exact evaluation of the documented rule on real saturated runs and mirrored-run comparison",
-                text="momentum_mirror, pMarket_even, decide_mirror, direction_follows_sign, saturated_always_acts for all paths/decays/draws, over an abstract odd tanh. Per run the real agents are driven on harness-quoted paths; the rule is evaluated exactly on the mids they observed and the mirrored path must give the mirrored flow. PARTIAL on floats (tanh idealised as odd).",
-                note=SIM_NOTE + " Props/C17 imports three Mathlib modules."),
+                technique="Lean 4 theorems over exact rationals AND over a binary64 model (mirroring a path negates every momentum signal bit for bit and keeps both probabilities; direction = sign of M for the whole update; any odd tanh) + exact prediction of the real momentum agents' updates by the f64 Lean model + exact evaluation of the documented rule on real saturated runs and mirrored-run comparison",
+                text="momentum_mirror, pMarket_even, decide_mirror, direction_follows_sign, saturated_always_acts for all paths/decays/draws, over an abstract odd tanh. In f64 (the arithmetic the agent performs): f64_round_odd, probability_depends_on_magnitude_f64, momentum_mirror_f64 (along every mid-price path the mirrored run's M is the exact negative and both probabilities are the same f64 values), direction_mirror_f64, update_direction_follows_signal (whole update: buys only while 0<M, sells only while M<0, next state carries exactly the signal), zero_signal_does_nothing. Per run the f64 model predicts every decision of the real MomentumAgent / MomentumMarketAgent exactly for arbitrary parameters (tanh from a recorded table); the real agents are also driven on harness-quoted paths, the rule evaluated exactly on the mids they observed, and the mirrored path must give the mirrored flow. Trusted: libm tanh is odd.",
+                note=SIM_NOTE + " Props/C17 and the f64 lemma files import a few Mathlib modules (ordered field Rat, floor, ring/linarith/positivity)."),
     "C20": dict(engine="sim", design_ref="DESIGN.md 6/C20",
                 technique="Lean 4 theorems on the macro template translated from source each run (one update per named field in declaration order; derived = fold over leaves in preorder, nested sets included) + compiled struct shapes with probe agents vs hand-written sequence vs model prediction",
-                text="template_is_model (decide on the translated macro source), derive_calls, derived_eq_handwritten (mutual induction over nested sets), probeDraws_log. Per run 48 struct shapes (both macros, 1-8 fields, nested, non-alphabetical names, with/without trailing comma, declared literally or through a macro_rules! helper) compiled with the real macros are compared call-by-call and draw-by-draw with the hand-written sequence and with the Lean prediction.",
+                text="template_is_model (decide on the translated macro source), derive_calls, derived_eq_handwritten (mutual induction over nested sets), probeDraws_log. Per run 54 struct shapes (both macros, 1-8 fields, nested, non-alphabetical names, with/without trailing comma, doc comments and attributes on fields, same-named structs in sibling modules, declared literally or through a macro_rules! helper) compiled with the real macros are compared call-by-call and draw-by-draw with the hand-written sequence and with the Lean prediction.",
                 note=SIM_NOTE),
 })
 
